@@ -221,10 +221,18 @@ def contract_guard(ctx, suf):
         absf = c.get('%s->absolutePath' % u)
         head = c.get(H)
         nxt = c.get(H + '->next')
-        emp1 = c.get(e1, c.get(e1b))
-        emp2 = c.get(e2, c.get(e2b))
+        def emptiness(eqa, eqb):
+            v = c.get(eqa, c.get(eqb))
+            if v is None:
+                # the same test written with != (truth inverted)
+                w = c.get(eqa.replace(' == ', ' != '), c.get(eqb.replace(' == ', ' != ')))
+                v = None if w is None else (not w)
+            return v
+        emp1 = emptiness(e1, e1b)
+        emp2 = emptiness(e2, e2b)
         slashes = None
-        if head is False:
+        if head is False or emp1 is False:
+            # no first segment, or a non-empty one: the text cannot begin with "//" whatever the flag says
             slashes = False
         elif absf is True:
             slashes = emp1
